@@ -8,8 +8,10 @@ from vlib import sched
 POOL = [':nth-child(2n+1)', ':lang(en)', ':-soup-contains("x")', ':dir(ltr)', ':nth-of-type(odd)', 'div > p.a[t=x]',
         ':is(a, b):not(.c)', ':nth-last-child(2 of .k)', ':--alias', ':unknown', ':checked', 'p:has(> span)',
         ':lang("de-*", fr)', ':-soup-contains-own(te)', ':nth-child(x)', ':-soup-contains("alpha", "beta", te)',
-        ':lang(de)', 'p:lang(fr, en):-soup-contains(y, x)']
-CUSTOM = {':--alias': 'p:nth-child(odd)'}
+        ':lang(de)', 'p:lang(fr, en):-soup-contains(y, x)', 'p:--alias', ':--outer', ':--undefined']
+CUSTOM = {':--alias': 'p:nth-child(odd)', ':--outer': 'div :--alias, :--alias > span'}
+DETACHED = ['p:first-of-type', 'div:first-of-type', ':nth-child(1 of p)', ':nth-last-of-type(1)', 'p:only-of-type', ':root',
+            'p:first-child', ':nth-child(2n+1 of div)']
 MARKUP = '<html lang="en"><body><div><p class="a" t="x">te<span>x</span></p><p>y</p></div><input type="checkbox" checked></body></html>'
 
 
@@ -20,7 +22,7 @@ def run(ctx):
     from soupsieve import css_parser as cp, css_match as cm, css_types as ct, util, pretty
     ctx.level = 'model_checking'
     mods = [cp, cm, ct, util, pretty, sv]
-    found = sched.discover(mods)
+    found = sched.discover(mods) + sched.wrap_caches(mods)
     before = sched.globals_snapshot(mods)
     cbefore = sched.class_snapshot(mods)
     ctx.functions.update(['soupsieve.compile', 'soupsieve.css_parser.CSSParser (tokenizer + parser)',
@@ -56,10 +58,29 @@ def run(ctx):
                     id(c.closest(els[-1])))
         return f
 
-    calls = [('compile ' + p, mk_raw(p)) for p in POOL] + [('select ' + p, mk_select(p)) for p in compiled]
+    # elements without a parent (extracted / never inserted): the matcher gives them a temporary parent
+    loose = []
+    for mk in ('<p class="a">x</p>', '<div>y</div>'):
+        loose.append(bs4.BeautifulSoup(mk, 'html.parser').contents[0].extract())
+    loose.append(doc.new_tag('p'))
+
+    def mk_detached(p):
+        c = sv.compile(p)
+
+        def f():
+            return [bool(c.match(e)) for e in loose] + [len(c.filter(loose))]
+        return f
+
+    def fresh():
+        # every call is traced and replayed from the state just after purge(), so that first-use effects are part of it
+        sv.purge()
+
+    calls = [('compile ' + p, mk_raw(p)) for p in POOL] + [('select ' + p, mk_select(p)) for p in compiled] + \
+        [('detached ' + p, mk_detached(p)) for p in DETACHED]
     traces = {}
     solo = {}
     for name, fn in calls:
+        fresh()
         ev, res = sched.trace(fn)
         traces[name], solo[name] = ev, res
     after = sched.globals_snapshot(mods)
@@ -97,6 +118,7 @@ def run(ctx):
                                else 'inconclusive', info=info)
             continue
         nsat += 1
+        fresh()
         results = sched.enforce(schedule, [fnmap[n] for n in combo])
         diverged = [(n, r, solo[n]) for n, r in zip(combo, results)
                     if (r is None) or r[0] != solo[n][0] or (r[0] == 'ok' and r[1] != solo[n][1]) or
@@ -120,10 +142,12 @@ def run(ctx):
     if rebound or any(writers.values()):
         rounds *= 10
     try:
-        cnames = [n for n in names if n.startswith('compile ')] + [n for n in names if n.startswith('select ')]
+        cnames = list(names)
         for k in range(rounds):
             a, b = cnames[k % len(cnames)], cnames[(k * 7 + 3) % len(cnames)]
             out = [None, None]
+            if k % 3 == 0:
+                fresh()
 
             def w(i, n):
                 try:
